@@ -2,23 +2,32 @@
 # C16 — text-image and VTK export (`pewlib.io.textimage`, `pewlib.io.vtk`)
 
 ## Text image
-`save` is `np.savetxt(path, data, delimiter=",", comments="#", header=header, fmt="%.18g")`: an
-optional header line `# <header>`, then one line per row, the fields printed by `fmt` and joined
-by commas, every line terminated by `\n`.  `load` (no delimiter given) replaces `;` and tab by
-`,` in every line and hands the lines to `np.genfromtxt(delimiter=",", comments="#", ndmin=2)`:
-the comment is cut, blank lines are skipped, the line is split at commas, every field is parsed,
-all rows must have the same number of columns; the array has shape (rows, columns); with `ndmin=2`
-nothing is squeezed (the code before commit 9e652ea called it with the default `ndmin=0`, which
-squeezes every axis of length one, and `atleast_2d` then turns a column into a row).
+`save` is `np.savetxt(path, data, delimiter=",", comments="#", header=header, fmt="%.18g")`: when
+`header` is not empty the text `"#" + header.replace("\n", "\n#") + "\n"` (the comment prefix has no
+space, every line of a multi-line header gets it), then one line per row, the fields printed by
+`fmt` and joined by commas, every line terminated by `\n`.
 
-The number printer and parser are opaque parameters `fmt` / `parse`; the theorems assume
-`parse (fmt x) = x` and that `fmt` prints no delimiter, comment or newline character (`%.18g` →
-`strtod` is the identity on float64 — trusted, exercised by the correspondence check).
+`load` (no delimiter given) opens the file in text mode (universal newlines: `\r\n` and a lone `\r`
+arrive as `\n`), replaces `;` and tab by `,` in every line and hands the lines to
+`np.genfromtxt(delimiter=",", comments="#", dtype=float64, ndmin=2)`.  Its `LineSplitter` cuts the line
+at the first `#`, strips the characters space, `\r`, `\n` from both ends, returns no field for an
+empty rest and `rest.split(",")` otherwise.  Lines without fields are skipped; the first line with
+fields fixes the number of columns; a later line with another number of fields makes the call
+raise `ValueError`; with no line at all a warning is issued and an empty array comes back.  Every
+field goes through the *loose* float converter `float(field)` with `nan` for a `ValueError`
+(so an empty or unparsable field is NaN, never an error).  The result has shape (rows, columns);
+`_ensure_ndmin_ndarray(ndmin=2)` squeezes nothing (the code before commit 9e652ea used the default
+`ndmin=0`, which squeezes every axis of length one, and `atleast_2d` then made a column a row).
+
+The number printer and the converter are opaque parameters `fmt : α → Str` / `conv : Str → α`
+(`conv` is total: it is `float` with the NaN fallback).  The theorems assume `conv (fmt x) = x` and
+that `fmt` prints no delimiter, comment, newline or space character (`%.18g` → `float` is the
+identity on float64 — trusted, exercised by the correspondence check).
 
 ## VTK
-`save` raises the image to 3-D, flips axis 0, swaps axes 0 and 1, writes the extents, one
-`DataArray` per element with its byte offset into the appended section, and the appended section:
-per element a `UInt64` byte count followed by the values in Fortran order.
+`save` raises the image to 3-D, flips axis 0, swaps axes 0 and 1, writes the XML header (extents,
+origin, spacing, one `DataArray` per element with its byte offset into the appended section) and
+the appended section: per element a `UInt64` byte count followed by the values in Fortran order.
 -/
 namespace Pew.Export
 
@@ -48,11 +57,23 @@ def joinWith : List Char → List Str → Str
   | [], x :: y :: r => x ++ ',' :: joinWith [] (y :: r)
   | s :: ss, x :: y :: r => x ++ s :: joinWith ss (y :: r)
 
-/-- iteration over a text file: the pieces terminated by `\n` (terminator removed, as
-genfromtxt's splitter strips it), and a last unterminated piece when it is not empty -/
-def fileLines (s : Str) : List Str :=
+/-- reading in text mode with `newline=None`: `\r\n` and a lone `\r` are delivered as `\n`
+(`prevCR`: the character before was a `\r`, so a `\n` now belongs to it) -/
+def universalNewlines (prevCR : Bool) : Str → Str
+  | [] => []
+  | c :: r =>
+    if c = '\r' then '\n' :: universalNewlines true r
+    else if c = '\n' then (if prevCR then universalNewlines false r else '\n' :: universalNewlines false r)
+    else c :: universalNewlines false r
+
+/-- `for line in fp`: every piece up to and including its `\n`, and a last unterminated piece when
+it is not empty -/
+def pyLines (s : Str) : List Str :=
   let p := splitOn '\n' s
-  if p.getLast? = some [] then p.dropLast else p
+  p.dropLast.map (· ++ ['\n']) ++ (match p.getLast? with
+    | some [] => []
+    | some l => [l]
+    | none => [])
 
 /-- `line.replace(";", ",").replace("\t", ",")` -/
 def normalise (line : Str) : Str := line.map fun c => if c = ';' ∨ c = '\t' then ',' else c
@@ -60,58 +81,131 @@ def normalise (line : Str) : Str := line.map fun c => if c = ';' ∨ c = '\t' th
 /-- `line.split("#")[0]` -/
 def cutComment (line : Str) : Str := line.takeWhile (· ≠ '#')
 
+/-- the characters of `line.strip(" \r\n")` -/
+def isStripChar (c : Char) : Bool := c = ' ' || c = '\r' || c = '\n'
+
+/-- `line.strip(" \r\n")` -/
+def strip (s : Str) : Str := ((s.dropWhile isStripChar).reverse.dropWhile isStripChar).reverse
+
+/-- `LineSplitter._delimited_splitter` with `delimiter=","`, `comments="#"`: the fields of a line,
+none for a blank or comment-only line -/
+def splitLine (line : Str) : List Str :=
+  let body := strip (cutComment line)
+  if body = [] then [] else splitOn ',' body
+
 /-! ## text: save and load -/
 
 variable {α : Type}
 
-def headerLines : Option Str → Str
-  | none => []
-  | some h => '#' :: ' ' :: h ++ ['\n']
+/-- savetxt's header: `comments + header.replace("\n", "\n" + comments) + "\n"` when `len(header) > 0` -/
+def headerText (h : Str) : Str :=
+  if h = [] then [] else '#' :: h.flatMap (fun c => if c = '\n' then ['\n', '#'] else [c]) ++ ['\n']
 
-def saveText (fmt : α → Str) (header : Option Str) (img : List (List α)) : Str :=
-  headerLines header ++ img.flatMap fun row => join ',' (row.map fmt) ++ ['\n']
+def saveText (fmt : α → Str) (header : Str) (img : List (List α)) : Str :=
+  headerText header ++ img.flatMap fun row => join ',' (row.map fmt) ++ ['\n']
 
 /-- an image written with arbitrary separators from `,` `;` tab (one list of separators per row) -/
 def saveWith (fmt : α → Str) (seps : List (List Char)) (img : List (List α)) : Str :=
   (List.zip seps img).flatMap fun (ss, row) => joinWith ss (row.map fmt) ++ ['\n']
 
-def parseFields (parse : Str → Option α) : List Str → Option (List α)
-  | [] => some []
-  | f :: fs => match parse f, parseFields parse fs with
-    | some x, some xs => some (x :: xs)
-    | _, _ => none
+/-- the lines genfromtxt sees: the file read with universal newlines, `;` and tab replaced -/
+def loaderLines (file : Str) : List Str := (pyLines (universalNewlines false file)).map normalise
 
-/-- genfromtxt's row loop: cut comments, skip blank lines, split, parse; `none` = the call raises -/
-def parseRows (parse : Str → Option α) : List Str → Option (List (List α))
-  | [] => some []
-  | l :: ls =>
-    let body := cutComment l
-    if body = [] then parseRows parse ls
-    else match parseFields parse (splitOn ',' body), parseRows parse ls with
-      | some r, some rs => some (r :: rs)
-      | _, _ => none
+/-- genfromtxt's rows of fields: lines without fields are skipped -/
+def fieldRows (lines : List Str) : List (List Str) := (lines.map splitLine).filter (· ≠ [])
 
-/-- `_ensure_ndmin_ndarray` followed by `np.atleast_2d` on the shape `(r, c)` of the parsed table -/
-def shapeRule (ndmin r c : Nat) : List Nat :=
-  let sq := if 2 > ndmin then [r, c].filter (· ≠ 1) else [r, c]      -- np.squeeze
-  let mn := match sq with                                              -- raise to ndmin (≤ 2)
-    | [n] => if ndmin = 2 then [n, 1] else [n]                         -- atleast_2d(a).T
-    | [] => if ndmin = 2 then [1, 1] else if ndmin = 1 then [1] else []
-    | s => s
+/-- `_ensure_ndmin_ndarray(a, ndmin)` followed by `np.atleast_2d`, on the shape of `a` -/
+def shapeRule (ndmin : Nat) (sh : List Nat) : List Nat :=
+  let sq := if sh.length > ndmin then sh.filter (· ≠ 1) else sh       -- np.squeeze
+  let mn :=
+    if sq.length < ndmin then
+      match sq with
+      | [] => if ndmin = 2 then [1, 1] else if ndmin = 1 then [1] else []
+      | [n] => if ndmin = 2 then [n, 1] else [n]                       -- np.atleast_2d(a).T
+      | s => s
+    else sq
   match mn with                                                        -- np.atleast_2d
   | [] => [1, 1]
   | [n] => [1, n]
   | s => s
 
-/-- `textimage.load(path)`: shape and row-major values; `none` = raises -/
-def loadText (parse : Str → Option α) (ndmin : Nat) (file : Str) : Option (List Nat × List α) :=
-  match parseRows parse ((fileLines file).map normalise) with
-  | none => none
-  | some [] => none                                  -- genfromtxt on an empty table: not an image
-  | some (r :: rs) =>
+/-- the table `genfromtxt` builds, before number conversion: shape and row-major field strings;
+`none` = the call raises `ValueError` (a row with another number of fields than the first).
+No row at all: `np.array([])` of shape `(0,)` (and a warning). -/
+def loadFields (ndmin : Nat) (file : Str) : Option (List Nat × List Str) :=
+  match fieldRows (loaderLines file) with
+  | [] => some (shapeRule ndmin [0], [])
+  | r :: rs =>
     if rs.all (fun q => q.length == r.length) then
-      some (shapeRule ndmin (rs.length + 1) r.length, (r :: rs).flatten)
+      some (shapeRule ndmin [rs.length + 1, r.length], (r :: rs).flatten)
     else none
+
+/-- genfromtxt warns "Empty input file" exactly when no line has a field -/
+def loadWarns (file : Str) : Bool := (fieldRows (loaderLines file)).isEmpty
+
+/-- `textimage.load(path)`: shape and row-major values; `none` = raises.  `conv` is the loose float
+converter (`float(field)`, NaN when that fails) -/
+def loadText (conv : Str → α) (ndmin : Nat) (file : Str) : Option (List Nat × List α) :=
+  (loadFields ndmin file).map fun (sh, d) => (sh, d.map conv)
+
+/-! ## text: files written by other tools
+
+The class of "delimiter variants of an image" made explicit as a writer: every line is indented by
+some spaces, holds cells (a value with spaces before and after) separated by any of `,` `;` tab,
+may end in a comment, and is terminated by `\n`, `\r\n`, a lone `\r`, or (last line) nothing.  A
+line without cells is a blank or comment-only line. -/
+
+inductive Eol where
+  | lf | crlf | cr | eof
+  deriving DecidableEq, Repr
+
+def Eol.str : Eol → Str
+  | .lf => ['\n']
+  | .crlf => ['\r', '\n']
+  | .cr => ['\r']
+  | .eof => []
+
+structure FLine (α : Type) where
+  indent : Nat
+  cells : List (Nat × α × Nat)
+  seps : List Char
+  comment : Option Str
+  eol : Eol
+
+def spaces (n : Nat) : Str := List.replicate n ' '
+
+def cellText (fmt : α → Str) (c : Nat × α × Nat) : Str := spaces c.1 ++ fmt c.2.1 ++ spaces c.2.2
+
+def commentText : Option Str → Str
+  | none => []
+  | some c => '#' :: c
+
+/-- the text of a line before its terminator -/
+def FLine.content (fmt : α → Str) (l : FLine α) : Str :=
+  spaces l.indent ++ joinWith l.seps (l.cells.map (cellText fmt)) ++ commentText l.comment
+
+def foreignFile (fmt : α → Str) (ls : List (FLine α)) : Str :=
+  ls.flatMap fun l => l.content fmt ++ l.eol.str
+
+/-- the description is one of a file of this class: separators are delimiters, one fewer than
+cells; comments hold no line break; only the last line may lack a terminator, and then it is not
+empty; a line ended by a lone `\r` is not followed by an empty line ended by `\n` (that pair of
+lines is the single terminator `\r\n`) -/
+def foreignOk (fmt : α → Str) : List (FLine α) → Bool
+  | [] => true
+  | l :: rest =>
+    l.seps.all (fun s => s = ',' || s = ';' || s = '\t') &&
+    (l.seps.length + 1 == l.cells.length || (l.cells.isEmpty && l.seps.isEmpty)) &&
+    (match l.comment with | none => true | some c => c.all (fun x => x ≠ '\n' && x ≠ '\r')) &&
+    (if l.eol = .eof then rest.isEmpty && !(l.content fmt).isEmpty else true) &&
+    (match l.eol, rest with
+      | .cr, n :: _ => !((n.content fmt).isEmpty && n.eol = .lf)
+      | _, _ => true) &&
+    foreignOk fmt rest
+
+/-- the image a file of the class stands for: the values of the lines that have cells -/
+def foreignImage (ls : List (FLine α)) : List (List α) :=
+  (ls.filter (fun l => !l.cells.isEmpty)).map fun l => l.cells.map (·.2.1)
 
 /-! ## VTK -/
 
